@@ -117,6 +117,10 @@ class K:
             return v
         v = z3.Int(name)
         self.sym_inputs[name] = ("scalar", v)
+        if size or name == "seed":
+            from . import vc as _vc
+
+            _vc.HUB_NAMES.add(name)  # sizes occur in every axiom: they do not make hypotheses relevant
         c = cur()
         if ge is not None:
             c.assume(v >= ge, tag="domain")
@@ -133,6 +137,10 @@ class K:
             self.inputs[name] = v
             return v
         self.sym_inputs[name] = ("scalar", z3.Real(name))
+        if name.startswith(("p.", "p1.", "p2.")):
+            from . import vc as _vc
+
+            _vc.HUB_NAMES.add(name)
         return T(z3.Real(name))
 
     def bool(self, name):
